@@ -55,6 +55,13 @@ def norm(s):
     return r
 
 
+# equivalent spellings of one operation (`for x in &v` / `v.iter()`): rules name the canonical one
+ALIASES = {
+    'core::slice::iter': ('core::slice::iter::into_iter', "<&* alloc::vec::Vec as core::iter::traits::collect::IntoIterator>::into_iter",
+                          '<&alloc::vec::Vec as core::iter::traits::collect::IntoIterator>::into_iter'),
+}
+
+
 def const_of(op):
     return op.get('const') if isinstance(op, dict) else None
 
@@ -186,6 +193,8 @@ class CallSite:
         for p in pats:
             for s in (self.short, self.gshort):
                 if s and (s == p or fnmatch.fnmatchcase(s, p)):
+                    return True
+                if s and p in ALIASES and any(fnmatch.fnmatchcase(s, a) for a in ALIASES[p]):
                     return True
         return False
 
